@@ -215,8 +215,21 @@ pub fn check(world: &World, j: &Judgement, rr: &RunResult, cfg: &OracleCfg) -> V
             for r in &requests {
                 *seen.entry(r.token.clone()).or_insert(0) += 1;
             }
-            if let Some((t, n)) = seen.iter().find(|(_, n)| **n > 1) {
-                out.push(mm("ai-request-duplicated", format!("{n} requests for {t}")));
+            // at most one request per block (the same prompt may sit on several blocks)
+            let mut allowed: BTreeMap<String, i32> = BTreeMap::new();
+            for s in &j.selected {
+                if let Some(t) = s.layout.attr("check-ai").and_then(model::find_ai_token) {
+                    *allowed.entry(t).or_insert(0) += 1;
+                }
+            }
+            if let Some((t, n)) = seen
+                .iter()
+                .find(|(t, n)| **n > allowed.get(*t).copied().unwrap_or(0).max(1))
+            {
+                out.push(mm(
+                    "ai-request-duplicated",
+                    format!("{n} requests for {t}, written on {} block(s)", allowed.get(t).copied().unwrap_or(0)),
+                ));
             }
             let mut seen = BTreeMap::new();
             for t in &lua_call_tokens {
@@ -285,48 +298,70 @@ pub fn check(world: &World, j: &Judgement, rr: &RunResult, cfg: &OracleCfg) -> V
     }
     let key = world.env.ai_key.clone().unwrap_or_default();
     for r in &requests {
-        let Some(sel) = j.selected.iter().find(|s| {
-            s.layout
-                .attr("check-ai")
-                .and_then(model::find_ai_token)
-                .is_some_and(|t| t == r.token)
-        }) else {
+        // candidates: every selected check-ai block whose condition carries the request's token
+        // (several when the same prompt is written on more than one block)
+        let candidates: Vec<&crate::model::SelBlock> = j
+            .selected
+            .iter()
+            .filter(|s| {
+                s.layout
+                    .attr("check-ai")
+                    .and_then(model::find_ai_token)
+                    .is_some_and(|t| t == r.token)
+            })
+            .collect();
+        if candidates.is_empty() {
             out.push(mm(
                 "ai-request-extra",
                 format!("request with token {:?} matches no selected check-ai block", r.token),
             ));
             continue;
-        };
-        let cond = sel.layout.attr("check-ai").unwrap_or("");
-        let content = match sel.layout.attr("check-ai-pattern") {
-            Some(p) if !model::INVALID_PATTERNS.contains(&p) => model_extract(p, &sel.layout.content),
-            Some(_) => continue,
-            None => trim_ascii(&sel.layout.content).to_string(),
-        };
+        }
         let want_path = format!("{}/chat/completions", world.env.ai_base_path);
-        let mut bad = Vec::new();
-        if r.method != "POST" {
-            bad.push(format!("method {}", r.method));
-        }
-        if r.path != want_path {
-            bad.push(format!("path {:?} != {:?}", r.path, want_path));
-        }
-        if r.authorization != format!("Bearer {key}") {
-            bad.push(format!("authorization {:?}", r.authorization));
-        }
-        if let Some(m) = &world.env.ai_model {
-            if &r.model != m {
-                bad.push(format!("model {:?} != {:?}", r.model, m));
+        let mut best: Option<Vec<String>> = None;
+        for sel in candidates {
+            let cond = sel.layout.attr("check-ai").unwrap_or("");
+            let content = match sel.layout.attr("check-ai-pattern") {
+                Some(p) if !model::INVALID_PATTERNS.contains(&p) => model_extract(p, &sel.layout.content),
+                Some(_) => {
+                    best = Some(vec![]);
+                    break;
+                }
+                None => trim_ascii(&sel.layout.content).to_string(),
+            };
+            let mut bad = Vec::new();
+            if r.method != "POST" {
+                bad.push(format!("method {}", r.method));
+            }
+            if r.path != want_path {
+                bad.push(format!("path {:?} != {:?}", r.path, want_path));
+            }
+            if r.authorization != format!("Bearer {key}") {
+                bad.push(format!("authorization {:?}", r.authorization));
+            }
+            if let Some(m) = &world.env.ai_model {
+                if &r.model != m {
+                    bad.push(format!("model {:?} != {:?}", r.model, m));
+                }
+            }
+            if !r.user.contains(trim_ascii(cond)) {
+                bad.push(format!("condition {:?} not verbatim in user message {:?}", cond, r.user));
+            }
+            if !r.user.contains(&content) {
+                bad.push(format!("content {:?} not verbatim in user message {:?}", content, r.user));
+            }
+            if bad.is_empty() {
+                best = Some(bad);
+                break;
+            }
+            if best.as_ref().is_none_or(|b| b.len() > bad.len()) {
+                best = Some(bad);
             }
         }
-        if !r.user.contains(trim_ascii(cond)) {
-            bad.push(format!("condition {:?} not verbatim in user message {:?}", cond, r.user));
-        }
-        if !r.user.contains(&content) {
-            bad.push(format!("content {:?} not verbatim in user message {:?}", content, r.user));
-        }
-        if !bad.is_empty() {
-            out.push(mm("ai-request-unfaithful", bad.join("; ")));
+        if let Some(bad) = best {
+            if !bad.is_empty() {
+                out.push(mm("ai-request-unfaithful", bad.join("; ")));
+            }
         }
     }
     out
